@@ -20,6 +20,37 @@ CLAIMED = {
         design_ref='DESIGN.md 5 (C16)',
         note=TRUST,
         technique='contract-based deductive verification (CBMC dfcc function + loop contracts on extracted code)'),
+    'C04': dict(
+        category='proof',
+        text='Induction over call histories: representation invariant + one contract per public method, each checked by CBMC '
+             'from an ARBITRARY invariant-satisfying state. MoveToFront<3>::get has a full functional contract (route P on the '
+             'unmodified header and route X on the extracted body). AdjEnvelope: stage/flag discipline and cache coherence '
+             '(every cached vector is the vector its key denotes under the current regularisation; q_xx/q0_xx consume only such '
+             'vectors, in the right index space), min_x* invalidate, reset returns to the initial abstract state. '
+             'Numerical equality of two floating-point evaluation orders is not decided.',
+        design_ref='DESIGN.md 5 (C04)',
+        note=TRUST + '; numeric stages (solve_x0, solve_x, T_row, Envelope kernels, Vec payload) are stubs with assumed contracts '
+             'that carry ghost tags (listed in the evidence trusted_base)',
+        technique='contract-based deductive verification (CBMC dfcc contracts + representation invariant + ghost tags)'),
+    'C11': dict(
+        category='proof',
+        text='GKF parser automaton under contract, loop-free hence complete: for all 30 states x 20 tags startElement/endElement '
+             'keep the state in range, the error state is absorbing, ENTERING the error state always records an error code and '
+             'the current line (located diagnostic), the target state is the one the schema prescribes; CoreParser::error: first '
+             'error wins; character data handler stays inside its buffer. expat, the attribute handlers process_* (assumed '
+             'contracts, syntactically guarded) and sanitizer-cleanliness of the whole process are not decided.',
+        design_ref='DESIGN.md 5 (C11)',
+        note=TRUST + '; 23 process_*/finish_* handlers enter through assumed contracts listed in the evidence',
+        technique='contract-based deductive verification (CBMC dfcc contracts on the extracted automaton, all state/tag pairs)'),
+    'C20': dict(
+        category='proof',
+        text='Per-solver flag bookkeeping under an arbitrary symbolic permutation: AdjEnvelope::lindep(i) is true iff the pivot '
+             'of row invp(i) of the factorised envelope is zero (caller numbering), defect() is the number of zeroed pivots '
+             '(Envelope::cholDec contract, all rows). "Truly linearly dependent" (numerical rank) and identical removals across '
+             'algorithms are not decided.',
+        design_ref='DESIGN.md 5 (C20)',
+        note=TRUST + '; the count clause composes two machine-checked contracts by a bijection argument that is not itself machine-checked',
+        technique='contract-based deductive verification (CBMC dfcc contracts with ghost permutation)'),
 }
 
 NA = {
